@@ -98,6 +98,12 @@ def history(job):
                     f.value = op[2]
                 elif op[0] == 'del':
                     delattr(s, op[1])
+                elif op[0] == 'addunnamed':
+                    # an unknown child: a Field without a name (the only nameless Field a STRICT constructor allows is of datatype `varies`)
+                    from hl7apy.core import Field
+                    f = Field(datatype='varies', version=v, validation_level=vlib.level(strict))
+                    f.value = op[1]
+                    {'add': s.add, 'append': s.children.append, 'parent': lambda x: setattr(x, 'parent', s)}[op[2]](f)
             except Exception as e:  # noqa
                 failed = (i, vlib.exc_name(e))
                 break
@@ -255,6 +261,8 @@ def run(tier, seed):
                     ops.append(('add', row[0], val))
                 else:
                     ops.append(('del', name))
+            if rng.random() < .25:
+                ops.insert(rng.randrange(len(ops) + 1), ('addunnamed', rng.choice(['abc', 'abc^def']), rng.choice(['add', 'append', 'parent'])))
             hj.append((v, seg, ops))
     rs = vlib.pmap(both_seg, sj, chunk=32)
     rm = vlib.pmap(both_msg, mj, chunk=8)
